@@ -139,13 +139,13 @@ func getSegmentIntersectPt(ln1a, ln1b, ln2a, ln2b Point64) (Point64, bool) {
 	dx1 := ln1b.X - ln1a.X
 	dy2 := ln2b.Y - ln2a.Y
 	dx2 := ln2b.X - ln2a.X
-	det := dy1*dx2 - dy2*dx1
+	det := crossOf(dx2, dy2, dx1, dy1)
 	var ip Point64
 	if det == 0 {
 		return ip, false
 	}
 
-	t := float64(((ln1a.X-ln2a.X)*dy2)-((ln1a.Y-ln2a.Y)*dx2)) / float64(det)
+	t := crossOf(ln1a.X-ln2a.X, ln1a.Y-ln2a.Y, dx2, dy2) / det
 	if t <= 0 {
 		ip = ln1a
 	} else if t >= 1 {
